@@ -817,6 +817,8 @@ func runC15(c *Ctx) int {
 
 	n := int64(c.Pick(4800, 60000))
 	run.Floor("histories_checked", 2*n*9/10)
+	c15CLI(c, run)
+	run.Floor("cli_targets_runs", int64(c.Pick(5, 50)))
 	run.Floor("histories_race_build", n*9/10)
 	run.Floor("histories_plain_build", n*9/10)
 	run.Floor("histories_with_overlapping_callers", n/5)
